@@ -219,7 +219,7 @@ def _worker(args):
 
 def check(tier):
     ck = core.Check("C10", tier)
-    shards, n = (16, 1300) if tier == "quick" else (64, 8000)
+    shards, n = (16, 4000) if tier == "quick" else (64, 8000)
     variants = ["asan"] * shards
     res = core.pmap(_worker, [(ck.seed, i, n, variants[i]) for i in range(shards)])
     counters = sem.merge(ck, res)
